@@ -86,9 +86,12 @@ func (i *postingsIterator) Advance(number uint64) (segment.Posting, error) {
 		if err != nil {
 			return nil, err
 		}
-		// close the current term field reader before replacing it with a new one
-		_ = i.Close()
-		*i = *(i2.(*postingsIterator))
+		// carry on with the state of the new iterator and close the new object,
+		// which takes over the old state, in its place: closing i itself would
+		// hand this very object, still in use, to the snapshot for recycling
+		fresh := i2.(*postingsIterator)
+		*i, *fresh = *fresh, *i
+		_ = fresh.Close()
 	}
 	segIndex, ldocNum := i.snapshot.segmentIndexAndLocalDocNumFromGlobal(number)
 	if segIndex >= len(i.snapshot.segment) {
